@@ -163,6 +163,17 @@ fn highlight(req: &Value) -> Value {
     }
 }
 
+/// semantic highlighting of a single file, whole document or a byte range: {"text":.., "range":[s,e]|null}
+fn semhl(req: &Value) -> Value {
+    let (host, file) = AnalysisHost::new_single_file(req["text"].as_str().unwrap());
+    let a = host.snapshot();
+    let range = req["range"].as_array().map(|r| syntax::TextRange::new((r[0].as_u64().unwrap() as u32).into(), (r[1].as_u64().unwrap() as u32).into()));
+    match a.syntax_highlight(file, range) {
+        Ok(hs) => json!({"semhl": hs.iter().map(|h| json!([u32::from(h.range.start()), u32::from(h.range.end()), format!("{:?}", h.tag)])).collect::<Vec<_>>()}),
+        Err(_) => json!("<cancelled>"),
+    }
+}
+
 fn main() {
     panic::set_hook(Box::new(|_| {}));
     let stdin = std::io::stdin();
@@ -184,6 +195,7 @@ fn main() {
             "diag" => diag(&req),
             "sighelp" => sighelp(&req),
             "highlight" => highlight(&req),
+            "semhl" => semhl(&req),
             _ => json!({"error": "unknown command"}),
         });
         let out = match res {
